@@ -94,7 +94,11 @@ Definition otab (sc : oscenario) : fid -> option fdef :=
                              f_accepts := fun a k => match o_kind (get_obj h o) with
                                                      | OBody name => match find (fun f => String.eqb (of_name f) name) (os_funs sc) with
                                                                      | Some f => is_some (call_bind (of_sig f) a k) | None => true end
-                                                     | _ => true end |}
+                                                     | _ => true end;
+                             f_binds := fun a k => match o_kind (get_obj h o) with
+                                                   | OBody name => match find (fun f => String.eqb (of_name f) name) (os_funs sc) with
+                                                                   | Some f => is_some (call_bind (of_sig f) a k) | None => true end
+                                                   | _ => true end |}
                 else None
     | None => None
     end.
